@@ -103,7 +103,13 @@ func execute(h *run.H, tr *hist.Trace, draw func(w *hist.World, m *Monitor, i in
 		}
 		cs.blocks++
 		for k, r := range res[0].Txs {
-			kind := decodeTx(st.Spec.Txs[k]).Kind
+			dt := decodeTx(st.Spec.Txs[k])
+			kind := dt.Kind
+			if dt.Create != nil {
+				if old := mon.Props[dt.ID]; old != nil {
+					cs.allKinds["create-with-existing-id-in-stage-"+string(old.Stage)]++
+				}
+			}
 			cs.allKinds[kind]++
 			if r.Code == 0 {
 				cs.okKinds[kind]++
@@ -174,6 +180,11 @@ func classes(cs *caseStats, profile string) (string, []string) {
 		}
 	}
 	for k, n := range cs.allKinds {
+		if strings.HasPrefix(k, "create-with-existing-id") {
+			for i := 0; i < n; i++ {
+				cl = append(cl, k)
+			}
+		}
 		if strings.HasPrefix(k, "PROPOSAL") || k == "EXPIRE_VOTES" {
 			for i := 0; i < n-cs.okKinds[k]; i++ {
 				cl = append(cl, "rejected:"+k)
